@@ -72,3 +72,10 @@ pub fn v_lines(s: &str) -> (r: Vec<&str>)
 pub uninterp spec fn parse_i32_spec(s: Seq<char>) -> Option<i32>;
 #[verifier::external_body]
 pub fn v_parse_i32(s: &str) -> (r: Result<i32, ()>) ensures (r is Ok) == (parse_i32_spec(s@) is Some), r is Ok ==> r->Ok_0 == parse_i32_spec(s@)->0 { s.parse::<i32>().map_err(|_| ()) }
+// R3: EXPR == "lit" / EXPR != "lit" -> vstr_eq(&*EXPR, "lit") (PartialEq<str> for String has no usable spec)
+#[verifier::external_body]
+pub fn vstr_eq(a: &str, b: &str) -> (r: bool) ensures r == (a@ == b@) { a == b }
+// R4: str::to_lowercase -> v_to_lowercase; `lower` is uninterpreted (Unicode lower-casing)
+pub uninterp spec fn lower(s: Seq<char>) -> Seq<char>;
+#[verifier::external_body]
+pub fn v_to_lowercase(s: &str) -> (r: String) ensures r@ == lower(s@) { s.to_lowercase() }
